@@ -237,10 +237,15 @@ payload_plausible(RPFrame *f)
     switch (f->header.type) {
     case RP_FRAME_READ_REQUEST:
         /* FALLTHROUGH */
-    case RP_FRAME_WRITE_RESPONSE:
-        /* FALLTHROUGH */
     case RP_FRAME_META:
         return (actualsize == 0) ? 0 : -EFAULT;
+    case RP_FRAME_WRITE_RESPONSE:
+        /* An acknowledgement carries no payload; error responses that
+         * report an address or buffer size do, like read responses. */
+        if (actualsize == 0) {
+            return 0;
+        }
+        /* FALLTHROUGH */
     case RP_FRAME_READ_RESPONSE:
         /* FALLTHROUGH */
     case RP_FRAME_WRITE_REQUEST:
